@@ -1,12 +1,13 @@
 """C10 — key and signature encodings (WIF, SEC, DER) are lossless and strict."""
 from vmon.probe import shard_rng, observe
-from vmon.refs import b58 as RB, der as RD, ec as REC, sec as RS
+from vmon.refs import b58 as RB, bip32 as RBIP, der as RD, ec as REC, sec as RS, wif as RW
 
 PROPERTY = "C10"
 PRELOAD_NETWORK_ORDERS = [["btc", "xtn", "ltc", "bch", "grs", "doge", "dash", "btg"], ["btg", "grs", "bch", "doge", "ltc", "xtn", "btc"]]
 LEVEL = "exploration"
-TECHNIQUE = ("differential runtime monitor at the key / codec API boundary vs independent SEC, DER, Base58Check and "
-             "curve-arithmetic references; acceptance-subset-of-canonical oracle over enumerated and random blobs")
+TECHNIQUE = ("differential runtime monitor at the key / codec API boundary vs independent SEC, DER, WIF, Base58Check and "
+             "curve-arithmetic references; acceptance-subset-of-canonical (re-encode identity) oracle over enumerated and random "
+             "blobs and texts; stateful query / derivation histories against a stateless model")
 RULE = ("cases: (network, secret exponent, compression flag) round trips through WIF / SEC / hash160 / address on every "
         "usable registered network in the OpenSSL and the pure-Python configuration; candidate SEC blobs = every prefix "
         "0..255 x lengths {0,1,32,33,34,64,65,66} over several valid bodies, x >= p and y >= p aliases of real points, "
@@ -19,7 +20,18 @@ RULE = ("cases: (network, secret exponent, compression flag) round trips through
         "curve over the same field (a = 0 / a = 3, b chosen so the pair lies on it), to secp256r1, and a list, through "
         "keys.public(pair[, is_compressed=False]) and Key(public_pair=). Fresh key objects are queried for sec / hash160 / "
         "address / wif (default, compressed, uncompressed) / public_pair / is_compressed / secret_exponent in a case-determined "
-        "shuffled order, every query twice. Distinct by (operation, network, input, spelling); non-trivial unless the blob is empty.")
+        "shuffled order, every query twice. Query histories over derived objects: a source key (built from an exponent, parsed from "
+        "WIF, from SEC, from a pair, a BIP32 node, an Electrum key) is asked nothing / the default / compressed / uncompressed form "
+        "(hash160, address, fingerprint), then an object is derived from it (public_copy, subkey / subkey_for_path / subkeys, BIP32 and "
+        "Electrum children, re-parsing its WIF through parse.wif / private_key / secret / parse(), its SEC through keys.public / from_sec / "
+        "parse.sec / parse.public_key, the Point it returned through keys.public / Key(public_pair=), its pair as text, its exponent through "
+        "keys.private / Key / parse.secret_exponent) and that object is asked all three forms in every starting order, then the source "
+        "again; random walks of queries, side steps (repr, as_text, sec_as_hex, ku_output) and derivations over a pool of objects. "
+        "Constructed WIF texts on every network: valid Base58Check around prefix || body for bodies of length 0, 1, 30..36 and more, "
+        "every value 0..255 of the 33rd byte, marker with a short / long exponent field, marker or padding in front, boundary exponents "
+        "(0, 1, n-1, n, n+1, 2^256-1, leading zero bytes, fields that begin with the prefix byte), dropped / doubled / altered / foreign "
+        "prefixes, random bodies, damaged checksums, each through parse.wif, parse.private_key, parse.secret and parse(), as str and as "
+        "one reused parseable_str. Distinct by (operation, network, input, spelling); non-trivial unless the blob is empty.")
 ASSUMPTIONS = [
     "references vmon/refs/sec.py, der.py, b58.py, ec.py are correct (self-tested on every run: published secp256k1 "
     "encodings and hash160 values, exhaustive blob enumeration on toy curves, X.690 hand vectors, exhaustive small-alphabet DER)",
@@ -35,7 +47,15 @@ ASSUMPTIONS = [
     "off-curve pairs are drawn with 0 <= x, y < p (pairs outside the field are outside the quantifier)",
     "an off-curve pair is an off-curve pair in whatever tuple type it arrives (incl. a pycoin Point of another curve): "
     "InvalidPublicPairError is demanded; for a list (not a documented spelling) and for the point at infinity only refusal is demanded",
-    "answers of a key object do not depend on which other queries were made on it before",
+    "answers of a key object do not depend on which other queries were made on it before, nor on what was asked of the object it "
+    "was derived from; a public copy / subkey / re-parsed key answers like a fresh key with the same exponent or pair and flag "
+    "(public_copy keeps the compression flag; BIP32 nodes are compressed, Electrum keys uncompressed; BIP32 / Electrum children are "
+    "located with the independent derivation of refs/bip32.py, which C08 validates)",
+    "a text is the WIF of a key iff it equals reference_encode(prefix, exponent, flag) of some key: the WIF parsers (parse.wif and the "
+    "dispatchers parse.private_key, parse.secret, parse() that share it) may return a key only for such a text, and then the key for "
+    "exactly that exponent and flag whose wif() is the text again; None and any exception count as refusal; a dispatcher that reads "
+    "the text as something that is not a key (contract) is not judged; texts that read as a decimal / hex number are not given to the dispatchers",
+    "ku_output rows wif / key_pair_as_sec / hash160 / address (compressed and uncompressed) are the key's encodings and are compared too",
     "networks GRS, GRSRT, TGRS need the absent groestlcoin_hash module and are reported as absent configurations",
 ]
 EXPLANATION = ("every pycoin call is compared with the reference value; decoders may accept a blob only if the strict "
@@ -74,11 +94,19 @@ def plan(tier, seed):
     shards.append({"kind": "sec", "n": 1500 if q else 100000, "idx": 99, "env": {"PYCOIN_NATIVE": "none"}})
     for i in range(2 if q else 12):
         shards.append({"kind": "der", "n": 12000 if q else 300000, "idx": i})
+    for part in range(6):
+        shards.append({"kind": "history", "part": part, "parts": 6, "sys_keys": 1 if q else 4, "walks": 3 if q else 60, "walk_len": 30 if q else 40,
+                       "label": "history-openssl-%d" % part})
+    shards.append({"kind": "history", "part": 0, "parts": 1, "max_nets": 2 if q else 12, "sys_keys": 1, "walks": 1 if q else 6, "walk_len": 12,
+                   "light": True, "env": {"PYCOIN_NATIVE": "none"}, "label": "history-purepython"})
+    for part in range(3 if q else 6):
+        shards.append({"kind": "wif", "part": part, "parts": 3 if q else 6, "rand_exponents": 1 if q else 24, "rand_texts": 30 if q else 600,
+                       "label": "wif-texts-%d" % part})
     return shards
 
 
 def selftest(rec):
-    return {"ec": REC.selftest(), "sec": RS.selftest(), "der": RD.selftest(), "b58_vectors": RB.selftest()}
+    return {"ec": REC.selftest(), "sec": RS.selftest(), "der": RD.selftest(), "b58_vectors": RB.selftest(), "wif": RW.selftest()}
 
 
 # ---------------------------------------------------------------------------------------------
@@ -290,6 +318,550 @@ def run_roundtrip(spec, rec, m):
                 s = check_key(net, code, se, comp, rec, m, prefixes)
                 if s and j == len(mine) - 1 and comp and ci < 2:
                     rec.sample(dict(s, op="WIF/SEC/address round trip"))
+        rec.ev("networks_usable")
+
+
+# ---------------------------------------------------------------------------------------------
+# query-order histories: one key object and the objects derived from it (public_copy, subkeys, re-parsed / re-built from
+# what it returned), every encoding asked with is_compressed default / True / False in all orders
+
+FLAGS = (None, True, False)
+MEMO_QUERIES = ("hash160", "address", "fingerprint")
+FLAG_QUERIES = ("sec", "hash160", "fingerprint", "address", "wif")
+PLAIN_QUERIES = ("public_pair", "is_compressed", "secret_exponent", "is_private")
+SIDE_STEPS = ("repr", "as_text", "sec_as_hex", "ku_output", "failing_call")
+# derivations after which the new object could share state with the old one get the full pre x post enumeration
+SHARING_KINDS = ("public_copy", "pair:keys.public", "pair:Key", "child", "child_pub")
+SELF_KINDS = ("subkey", "subkey_for_path", "subkeys")
+KU_NAMES = {"wif": ("wif", True), "wif_uncompressed": ("wif", False), "key_pair_as_sec": ("sec", True),
+            "key_pair_as_sec_uncompressed": ("sec", False), "hash160": ("hash160", True), "hash160_uncompressed": ("hash160", False),
+            "address": ("address", True), "address_uncompressed": ("address", False)}
+
+
+class KM(object):
+    """what one key-like object has to answer: secret exponent (or None), public pair, default compression flag;
+    kind 'key' / 'bip32' / 'electrum' and, for BIP32 nodes, the reference node (for subkeys)"""
+
+    def __init__(self, se, pub, comp, kind="key", hd=None, origin="source"):
+        self.se, self.pub, self.comp, self.kind, self.hd, self.origin = se, pub, comp, kind, hd, origin
+
+    def clone(self, origin):
+        return KM(self.se, self.pub, self.comp, self.kind, self.hd, origin)
+
+
+_H160 = {}
+
+
+def _h160(pub, c):
+    k = (pub, c)
+    if k not in _H160:
+        if len(_H160) > 20000:
+            _H160.clear()
+        _H160[k] = RS.hash160(RS.encode(pub, c))
+    return _H160[k]
+
+
+def km_expect(mo, name, flag, pf):
+    c = mo.comp if flag is None else flag
+    if name == "sec":
+        return RS.encode(mo.pub, c)
+    if name == "hash160":
+        return _h160(mo.pub, c)
+    if name == "fingerprint":
+        return _h160(mo.pub, c)[:4]
+    if name == "address":
+        return RB.encode_check(pf["addr"] + _h160(mo.pub, c))
+    if name == "wif":
+        return None if mo.se is None else RW.encode(pf["wif"], mo.se, c)
+    if name == "public_pair":
+        return mo.pub
+    if name == "is_compressed":
+        return mo.comp
+    if name == "secret_exponent":
+        return mo.se
+    if name == "is_private":
+        return mo.se is not None
+    raise ValueError(name)
+
+
+def net_prefixes(net, code, rec):
+    """address / WIF prefix of a network, read off the key with exponent 1 (the round-trip shards check they are constant)"""
+    k = net.keys.private(1)
+    w = RB.decode_check(observe(k.wif)[1]) if isinstance(observe(k.wif)[1], str) else None
+    a = RB.decode_check(observe(k.address)[1]) if isinstance(observe(k.address)[1], str) else None
+    if w is None or a is None or len(w) < 34 or len(a) < 21 or w[-33:] != (1).to_bytes(32, "big") + b"\x01":
+        rec.violation("wif.not_wif_format", {"net": code, "se": 1, "compressed": True}, [observe(k.wif)[1], observe(k.address)[1]], "Base58Check texts")
+        return None
+    return {"wif": w[:-33], "addr": a[:-20]}
+
+
+def make_source(net, code, src, m, pf):
+    """-> (status, object, model)"""
+    kind = src["kind"]
+    if kind in ("bip32", "bip32_pub"):
+        seed = bytes(src["seed"])
+        ref = RBIP.derive(RBIP.master(seed), RBIP.parse_path(src.get("path", "")))
+        st, obj = observe(lambda: net.keys.bip32_seed(seed).subkey_for_path(src.get("path", "")))
+        if kind == "bip32_pub":
+            ref = ref.neuter()
+            if st == "ok":
+                st, obj = observe(obj.public_copy)
+        return st, obj, KM(ref.k, ref.K, True, "bip32", ref)
+    se, comp = int(src["se"]), bool(src["comp"])
+    pub = m.refpub(se)
+    if kind == "private":
+        st, obj = observe(net.keys.private, se, is_compressed=comp)
+        return st, obj, KM(se, pub, comp)
+    if kind == "wif":
+        st, obj = observe(net.parse.wif, RW.encode(pf["wif"], se, comp))
+        return st, obj, KM(se, pub, comp)
+    if kind == "sec":
+        st, obj = observe(net.keys.public, RS.encode(pub, comp))
+        return st, obj, KM(None, pub, comp)
+    if kind == "pair":
+        st, obj = observe(net.keys.public, pub, is_compressed=comp)
+        return st, obj, KM(None, pub, comp)
+    if kind == "electrum":
+        st, obj = observe(net.keys.electrum_private, master_private_key=se)
+        return st, obj, KM(se, pub, False, "electrum")
+    if kind == "electrum_pub":
+        st, obj = observe(net.keys.electrum_public, master_public_key=RS.encode(pub, False)[1:])
+        return st, obj, KM(None, pub, False, "electrum")
+    raise ValueError(kind)
+
+
+def derive_object(net, code, obj, mo, kind, arg, m, pf):
+    """one derivation -> (status, new object, model) ; status 'skip' when it does not apply to this object"""
+    base, _, entry = kind.partition(":")
+    P = net.parse
+    KeyClass = m.keyclass(code)
+    if base == "public_copy":
+        st, r = observe(obj.public_copy)
+        return st, r, KM(None, mo.pub, mo.comp, mo.kind, mo.hd.neuter() if mo.hd is not None else None, kind)
+    if base in ("subkey", "subkey_for_path", "subkeys"):
+        if mo.kind != "key":
+            return "skip", None, None
+        if base == "subkey":
+            st, r = observe(obj.subkey) if arg is None else observe(obj.subkey, "0")
+        elif base == "subkey_for_path":
+            st, r = observe(obj.subkey_for_path, "0/1" if arg is None else "")
+        else:
+            st, r = observe(lambda: next(iter(obj.subkeys("" if arg is None else "0-2"))))
+        return st, r, mo.clone(kind)
+    if base in ("child", "child_pub"):
+        if mo.kind == "bip32":
+            path = RBIP.parse_path(arg)
+            if mo.se is None and any(i >= RBIP.HARD for i in path):
+                return "skip", None, None
+            ref = RBIP.derive(mo.hd, path)
+            if base == "child_pub":
+                st, r = observe(obj.subkey_for_path, arg + ".pub")
+                ref = ref.neuter()
+            elif len(path) == 1:
+                st, r = observe(obj.subkey, i=path[0] % RBIP.HARD, is_hardened=path[0] >= RBIP.HARD)
+            else:
+                st, r = observe(obj.subkey_for_path, arg)
+            return st, r, KM(ref.k, ref.K, True, "bip32", ref, kind)
+        if mo.kind == "electrum" and base == "child":
+            t = [int(v) for v in arg.split("/")]
+            n, ch = (t[0], t[1]) if len(t) == 2 else (t[0], 0)
+            cse, cpub = RBIP.electrum_child(mo.se, mo.pub, n, ch)
+            st, r = observe(obj.subkey, arg) if n % 2 else observe(obj.subkey_for_path, arg)
+            return st, r, KM(cse, cpub, False, "electrum", None, kind)
+        return "skip", None, None
+    c = mo.comp if arg is None else arg
+    if base == "wif_text":
+        if mo.se is None:
+            return "skip", None, None
+        text = RW.encode(pf["wif"], mo.se, c)
+        fn = {"parse.wif": P.wif, "parse.private_key": P.private_key, "parse.secret": P.secret, "parse": P}[entry]
+        st, r = observe(fn, text)
+        return st, r, KM(mo.se, mo.pub, c, origin=kind)
+    if base == "sec_bytes":
+        st, r = observe(net.keys.public if entry == "keys.public" else KeyClass.from_sec, RS.encode(mo.pub, c))
+        return st, r, KM(None, mo.pub, c, origin=kind)
+    if base == "sec_hex":
+        st, r = observe(P.sec if entry == "parse.sec" else P.public_key, RS.encode(mo.pub, c).hex())
+        return st, r, KM(None, mo.pub, c, origin=kind)
+    if base == "pair":
+        # the very object public_pair() returned goes into a new key
+        st, pair = observe(obj.public_pair)
+        if st != "ok":
+            return st, pair, None
+        if entry == "keys.public":
+            st, r = observe(net.keys.public, pair) if arg is None else observe(net.keys.public, pair, is_compressed=arg)
+        else:
+            st, r = observe(KeyClass, public_pair=pair) if arg is None else observe(KeyClass, public_pair=pair, is_compressed=arg)
+        return st, r, KM(None, mo.pub, True if arg is None else arg, origin=kind)
+    if base == "pair_text":
+        x, y = mo.pub
+        text = ("%d/%d" % (x, y)) if arg is None else ("%d,%s" % (x, "odd" if y & 1 else "even")) if arg else ("%x/%x" % (x, y))
+        if arg is False and (("%x" % x).isdigit() or ("%x" % y).isdigit()):
+            return "skip", None, None            # a hex spelling that reads as decimal
+        st, r = observe(P.public_pair if entry == "parse.public_pair" else P.public_key, text)
+        return st, r, KM(None, mo.pub, True, origin=kind)
+    if base == "exponent":
+        if mo.se is None:
+            return "skip", None, None
+        if entry == "keys.private":
+            st, r = observe(net.keys.private, mo.se) if arg is None else observe(net.keys.private, mo.se, is_compressed=arg)
+        elif entry == "Key":
+            st, r = observe(KeyClass, secret_exponent=mo.se) if arg is None else observe(KeyClass, secret_exponent=mo.se, is_compressed=arg)
+        else:
+            arg = None
+            text = "%x" % mo.se
+            if mo.se % 2 or text.isdigit():
+                text = str(mo.se)
+            st, r = observe(P.secret_exponent, text)
+        return st, r, KM(mo.se, mo.pub, True if arg is None else arg, origin=kind)
+    raise ValueError(kind)
+
+
+def run_history(net, code, src, steps, rec, m, pf):
+    """steps: ["q", object index, query, flag] | ["x", object index, side step, flag] | ["d", object index, derivation, arg]"""
+    case = {"net": code, "history": {"src": src, "steps": steps}}
+    rec.case(("hist", code, repr(sorted(src.items())), repr(steps)))
+    rec.ev("key.query_history")
+    st, obj, mo = make_source(net, code, src, m, pf)
+    if st != "ok" or obj is None:
+        rec.violation("key.history.source_refused", case, obj, "key")
+        return
+    objs = [(obj, mo)]
+    for si, step in enumerate(steps):
+        op, idx, name, flag = step
+        if idx >= len(objs):
+            continue                                   # the derivation that would have made it did not apply
+        obj, mo = objs[idx]
+        where = dict(case, step=si)
+        if op == "d":
+            st, r, nm = derive_object(net, code, obj, mo, name, flag, m, pf)
+            if st == "skip":
+                objs.append(objs[idx])                 # keep the indices of later steps meaningful
+                continue
+            rec.ev("derive:" + name.partition(":")[0])
+            if st != "ok" or r is None:
+                rec.violation("key.derived.%s.refused" % name, where, r, "key")
+                return
+            objs.append((r, nm))
+        elif op == "x":
+            rec.ev("side_step:" + name)
+            if name == "repr":
+                observe(repr, obj)
+            elif name == "as_text":
+                observe(obj.as_text)
+            elif name == "sec_as_hex":
+                observe(obj.sec_as_hex) if flag is None else observe(obj.sec_as_hex, is_compressed=flag)
+            elif name == "failing_call":
+                # a call that is refused (or answers False) between two queries
+                if mo.se is None:
+                    st, r = observe(obj.sign, b"\x11" * 32)
+                elif mo.kind == "bip32":
+                    st, r = observe(obj.subkey, i=-1)
+                else:
+                    st, r = observe(obj.verify, b"\x11" * 32, b"\x30\x06\x02\x01\x01\x02\x01\x01" if flag else b"junk")
+                observe(m.keyclass(code), secret_exponent=0, is_compressed=bool(flag))
+                observe(net.parse.wif, "not a wif")
+            else:
+                st, rows = observe(lambda: list(obj.ku_output()))
+                if st == "ok":
+                    for row in rows:
+                        if row[0] in KU_NAMES:
+                            qn, qf = KU_NAMES[row[0]]
+                            exp = km_expect(mo, qn, qf, pf)
+                            exp = exp.hex() if isinstance(exp, bytes) else exp
+                            if row[1] != exp:
+                                rec.violation("key.history.ku_output_mismatch", dict(where, row=row[0]), row[1], exp)
+                                return
+        else:
+            rec.ev("derived_query" if mo.origin != "source" else "source_query")
+            meth = getattr(obj, name, None)
+            if meth is None:
+                st, got = "exc", AttributeError(name)
+            else:
+                st, got = observe(meth) if flag is None else observe(meth, is_compressed=flag)
+            if name == "public_pair" and st == "ok" and got is not None:
+                got = tuple(got)
+            exp = km_expect(mo, name, flag, pf)
+            if st != "ok" or got != exp:
+                mech = "key.history.%s_mismatch" % name if mo.origin == "source" else "key.derived.%s.%s_mismatch" % (mo.origin, name)
+                rec.violation(mech, where, got, exp)
+                return
+
+
+def derivation_kinds(mo_kind, private):
+    kinds = ["public_copy"]
+    if mo_kind == "key":
+        kinds += ["subkey", "subkey_for_path", "subkeys"]
+    else:
+        kinds += ["child", "child_pub"] if mo_kind == "bip32" else ["child"]
+    kinds += ["pair:keys.public", "pair:Key", "sec_bytes:keys.public", "sec_bytes:Key.from_sec", "sec_hex:parse.sec", "sec_hex:parse.public_key",
+              "pair_text:parse.public_pair", "pair_text:parse.public_key"]
+    if private:
+        kinds += ["wif_text:parse.wif", "wif_text:parse.private_key", "wif_text:parse.secret", "wif_text:parse",
+                  "exponent:keys.private", "exponent:Key", "exponent:parse.secret_exponent"]
+    return kinds
+
+
+def _kind_arg(kind, mo_kind, j):
+    if kind in ("child", "child_pub"):
+        return ["0", "1/2", "3H", "2147483647", "0H/1"][j % 5] if mo_kind == "bip32" else ["0", "1/1", "7/0", "2"][j % 4]
+    return FLAGS[j % 3]
+
+
+def systematic_histories(src_kind, private, parity, light=False):
+    """for every derivation: what was asked of the source before (nothing / default / compressed / uncompressed form, through
+    hash160, address or fingerprint) x which form is asked of the derived object first; the source is asked again afterwards"""
+    out = []
+    mo_kind = "bip32" if src_kind.startswith("bip32") else "electrum" if src_kind.startswith("electrum") else "key"
+    for ki, kind in enumerate(derivation_kinds(mo_kind, private)):
+        full = kind in SHARING_KINDS
+        if light and not full and kind not in SELF_KINDS and kind != "wif_text:parse.wif":
+            continue
+        for pi, pre in enumerate(("none",) + FLAGS):
+            if not full and kind not in SELF_KINDS and not light and pi % 2 != (ki + parity) % 2:
+                continue                               # re-built objects: two of the four starting states each
+            for fi in range(3):
+                if (not full or light) and fi != (pi + ki + parity) % 3:
+                    continue
+                d = 1 if (parity + ki + pi) % 2 else 2
+                order = [FLAGS[(fi + d * j) % 3] for j in range(3)]
+                steps = []
+                if pre != "none":
+                    steps.append(["q", 0, MEMO_QUERIES[(pi + ki + parity) % 3], pre])
+                steps.append(["d", 0, kind, _kind_arg(kind, mo_kind, pi + fi + parity)])
+                for f in order:
+                    steps.append(["q", 1, "hash160", f])
+                    steps.append(["q", 1, "address", f])
+                steps += [["q", 1, "fingerprint", order[2]], ["q", 1, "sec", order[0]], ["q", 1, "is_compressed", None], ["q", 1, "public_pair", None],
+                          ["q", 1, "wif", order[1]], ["q", 1, "secret_exponent", None]]
+                for f in order:
+                    steps.append(["q", 0, MEMO_QUERIES[(fi + pi) % 2], f])
+                steps += [["q", 0, "wif", order[2]], ["q", 0, "is_compressed", None], ["q", 1, "hash160", order[1]]]
+                out.append(steps)
+    return out
+
+
+def random_history(rng, mo_kind, private, n_steps):
+    """a random walk: queries, side steps and derivations over a growing pool of objects (later entries may alias earlier ones)"""
+    kinds = derivation_kinds(mo_kind, private)
+    steps = []
+    pool = 1
+    for _ in range(n_steps):
+        r = rng.random()
+        idx = rng.randrange(pool) if rng.random() < 0.6 else pool - 1
+        if r < 0.22 and pool < 7:
+            kind = rng.choice(kinds[:4]) if rng.random() < 0.5 else rng.choice(kinds)
+            steps.append(["d", idx, kind, _kind_arg(kind, mo_kind, rng.randrange(30))])
+            pool += 1
+        elif r < 0.32:
+            steps.append(["x", idx, rng.choice(SIDE_STEPS), rng.choice(FLAGS)])
+        elif r < 0.42:
+            steps.append(["q", idx, rng.choice(PLAIN_QUERIES), None])
+        else:
+            steps.append(["q", idx, rng.choice(FLAG_QUERIES if rng.random() < 0.5 else MEMO_QUERIES), rng.choice(FLAGS)])
+    return steps
+
+
+def run_histories(spec, rec, m):
+    rng = shard_rng(spec["seed"], PROPERTY, spec["tier"], spec["shard"])
+    codes = [c for i, c in enumerate(sorted(m.nets)) if i % spec["parts"] == spec["part"]]
+    if spec.get("max_nets"):
+        rng.shuffle(codes)
+        codes = sorted(codes[:spec["max_nets"]])
+    bounds = boundary_exponents()
+    light = bool(spec.get("light"))
+    sampled = False
+    for ci, code in enumerate(codes):
+        net = m.nets[code]
+        pf = net_prefixes(net, code, rec)
+        if pf is None:
+            continue
+        # systematic: private keys built directly and parsed from WIF (both flags), public keys from SEC and from a pair,
+        # a BIP32 node and an Electrum key
+        plan_ = []
+        for j in range(spec["sys_keys"]):
+            se = bounds[(ci * 3 + j + spec["seed"]) % len(bounds)] if j % 2 == 0 else rng.randrange(1, N)
+            for comp in (True, False):
+                plan_.append({"kind": "private" if (j + comp) % 2 else "wif", "se": se, "comp": comp})
+        se = rng.randrange(1, N)
+        if not light:
+            plan_ += [{"kind": "sec", "se": se, "comp": bool(ci % 2)}, {"kind": "pair", "se": se, "comp": not ci % 2}]
+            seed = bytes(rng.randrange(256) for _ in range(16))
+            hier = [{"kind": "bip32", "seed": seed, "path": ["", "0H", "1/2"][ci % 3]}, {"kind": "bip32_pub", "seed": seed, "path": ["5", "", "0H/7"][ci % 3]},
+                    {"kind": "electrum", "se": rng.randrange(1, N), "comp": False}, {"kind": "electrum_pub", "se": rng.randrange(1, N), "comp": False}]
+            plan_ += hier if spec["tier"] != "quick" else hier[(ci + spec["seed"]) % 2::2]
+        for si, src in enumerate(plan_):
+            private = src["kind"] in ("private", "wif", "bip32", "electrum")
+            lite = light or src["kind"] in ("sec", "pair", "bip32", "bip32_pub", "electrum", "electrum_pub")
+            for steps in systematic_histories(src["kind"], private, ci + si + spec["seed"], light=lite):
+                run_history(net, code, src, steps, rec, m, pf)
+                if not sampled and steps[0][0] == "q":
+                    rec.sample({"op": "query history over a derived key", "net": code, "source": src, "steps": steps})
+                    sampled = True
+        for w in range(spec["walks"]):
+            sk = ["private", "wif", "private", "sec", "bip32", "electrum", "pair", "bip32_pub", "electrum_pub"][(w + ci) % (3 if light else 9)]
+            if sk.startswith("bip32"):
+                src = {"kind": sk, "seed": bytes(rng.randrange(256) for _ in range(rng.choice([16, 32, 64]))), "path": rng.choice(["", "0", "1H", "0/0"])}
+            else:
+                src = {"kind": sk, "se": rng.choice(bounds) if rng.random() < 0.3 else rng.randrange(1, N), "comp": rng.random() < 0.5}
+            mo_kind = "bip32" if sk.startswith("bip32") else "electrum" if sk.startswith("electrum") else "key"
+            run_history(net, code, src, random_history(rng, mo_kind, sk in ("private", "wif", "bip32", "electrum"), spec["walk_len"]), rec, m, pf)
+        rec.ev("networks_usable")
+
+
+# ---------------------------------------------------------------------------------------------
+# constructed WIF texts: right checksum, every structural deviation of the payload; accepted iff it is the WIF of the key returned
+
+WIF_ACCEPT_MECH = {"checksum": "wif.accepts_bad_checksum", "prefix": "wif.accepts_foreign_prefix", "length": "wif.accepts_bad_length",
+                   "marker": "wif.accepts_bad_marker", "range": "wif.parse_accepts_out_of_range_exponent"}
+WIF_ENTRIES = ("parse.wif", "parse.private_key", "parse.secret", "parse")
+MARKERS = (0x00, 0x02, 0x03, 0x04, 0x10, 0x11, 0x7f, 0x80, 0x81, 0xfe, 0xff)
+
+
+def _reads_as_number(text):
+    for base in (10, 16):
+        try:
+            int(text, base)
+            return True
+        except ValueError:
+            pass
+    return False
+
+
+def judge_wif_text(net, code, pw, text, rec, m, entries=WIF_ENTRIES, shared=False, payload=None, warm=None):
+    why, se, comp = RW.classify(pw, text) if payload is None else RW.classify_payload(pw, payload)
+    rec.case(("wif", code, text))
+    rec.ev("wif_class:" + why)
+    arg = text
+    if shared:
+        # one parseable_str (pycoin's caching str subclass) handed to every entry point in turn
+        from pycoin.networks.parseable_str import parseable_str
+        arg = parseable_str(text)
+        rec.ev("wif_text_object_reused")
+        if warm is not None and warm in m.nets:
+            # ... and to another network's parser first
+            rec.ev("wif_text_object_reused_across_networks")
+            observe(m.nets[warm].parse.wif, arg)
+            observe(m.nets[warm].parse.secret, arg)
+    P = net.parse
+    fns = {"parse.wif": P.wif, "parse.private_key": P.private_key, "parse.secret": P.secret, "parse": P}
+    for name in entries:
+        if name != "parse.wif" and _reads_as_number(text):
+            continue
+        rec.ev(name)
+        st, k = observe(fns[name], arg)
+        is_key = st == "ok" and k is not None and (name == "parse.wif" or (hasattr(k, "secret_exponent") and hasattr(k, "wif")))
+        case = {"net": code, "wif_text": text, "entry": name, "shared_text_object": shared, "first_given_to": warm if shared else None}
+        if is_key:
+            rec.ev("wif_text_accepted")
+            if why != "ok":
+                rec.violation(WIF_ACCEPT_MECH[why], case, [observe(k.secret_exponent)[1], observe(k.is_compressed)[1], observe(k.wif)[1]], "refused (%s)" % why)
+                continue
+            got = [observe(k.secret_exponent)[1], observe(k.is_compressed)[1]]
+            back = observe(k.wif)[1]
+            if got != [se, comp]:
+                rec.violation("wif.decode_mismatch", case, got, [se, comp])
+            elif back != text:
+                rec.violation("wif.reencode_differs", case, back, text)
+            elif (se in m._pub or len(m._pub) < 60) and (tuple(k.public_pair()) != m.refpub(se) or observe(k.sec)[1] != RS.encode(m.refpub(se), comp)):
+                rec.violation("wif.roundtrip_changes_public_pair", case, observe(k.sec)[1], RS.encode(m.refpub(se), comp))
+        elif st == "ok" and k is not None:
+            rec.ev("wif_text_read_as_something_else")          # parse.secret / parse() found another reading; not a key
+        else:
+            rec.ev("wif_text_refused")
+            if why == "ok":
+                rec.violation("wif.rejects_valid", case, k, [se, comp])
+
+
+def wif_exponents(rng, pw, extra):
+    b = [1, 2, N - 1, N, N + 1, 0, (1 << 256) - 1, 1 << 255, 1 << 248, (1 << 248) - 1, 0x0100, 0x0101, int("01" * 32, 16), N - 2,
+         int.from_bytes(pw[:1] * 32, "big"), int.from_bytes(pw + bytes(32 - len(pw)), "big") + 1, (N >> 8) << 8 | 1]
+    return b + [rng.randrange(1, N) for _ in range(extra)]
+
+
+def wif_payloads(pw, foreign, e, rng, sweep, brief=False):
+    """structural variants around one 32-byte exponent field"""
+    b = (e % (1 << 256)).to_bytes(32, "big")
+    if brief:
+        bodies = [b, b + b"\x01", b[1:], b[1:] + b"\x01", b"\x01" + b, b + b"\x01\x01", b + b"\x01\x00", b + b"\x00\x01", b + b"\x01\x01\x01"]
+        bodies += [b + bytes([mk]) for mk in (0x00, 0x02, 0x80, 0xff, rng.randrange(3, 256))]
+        return [pw + x for x in bodies] + [pw[:-1] + b + b"\x01", pw + pw + b, (foreign[0] if foreign else b"") + b + b"\x01"]
+    bodies = [b, b + b"\x01"]                                                     # the two well-formed layouts (valid iff e in range)
+    bodies += [b[1:], b[:-1], b[2:], b""]                                          # too short
+    bodies += [b[1:] + b"\x01", b[:-1] + b"\x01", b"\x01"]                          # marker present, exponent field too short
+    bodies += [b + bytes([mk]) for mk in (range(256) if sweep else MARKERS) if mk != 1]   # 33 bytes, last one is not the marker
+    bodies += [b"\x01" + b, b"\x00" + b]                                           # marker / padding in front
+    bodies += [b + b"\x01\x01", b + b"\x01\x00", b + b"\x00\x01", b"\x00" + b + b"\x01", b + b"\x01" + bytes([rng.randrange(256)])]   # 34
+    bodies += [b + b"\x01\x01\x01", b + bytes(rng.randrange(256) for _ in range(3)), b + b"\x01" + b[:3], b + b + b"\x01"]          # 35 and more
+    out = [pw + x for x in bodies]
+    for body in (b, b + b"\x01"):
+        out += [pw[:-1] + body, pw + pw + body, bytes([pw[0] ^ 1]) + pw[1:] + body, b"\x00" + pw + body, pw[:-1] + bytes([(pw[-1] + 1) & 0xff]) + body]
+        out += [f + body for f in foreign]
+    return out
+
+
+def run_wif(spec, rec, m):
+    rng = shard_rng(spec["seed"], PROPERTY, spec["tier"], spec["shard"])
+    all_codes = sorted(m.nets)
+    codes = [c for i, c in enumerate(all_codes) if i % spec["parts"] == spec["part"]]
+    prefixes = {}
+    for code in all_codes:
+        raw = RB.decode_check(observe(m.nets[code].keys.private(1).wif)[1] or "")
+        if raw is not None and len(raw) > 33:
+            prefixes[code] = raw[:-33]
+    distinct = sorted(set(prefixes.values()))
+    by_prefix = {}
+    for c_ in all_codes:
+        if c_ in prefixes:
+            by_prefix.setdefault(prefixes[c_], c_)
+    sampled = False
+    for ci, code in enumerate(codes):
+        net = m.nets[code]
+        pw = prefixes.get(code)
+        if pw is None:
+            rec.violation("wif.not_wif_format", {"net": code, "se": 1, "compressed": True}, observe(net.keys.private(1).wif)[1], "Base58Check text")
+            continue
+        others = [p for p in distinct if p != pw]
+        foreign = [others[(ci + j * 5 + spec["seed"]) % len(others)] for j in range(3)] if others else []
+        count = 0
+        exps = wif_exponents(rng, pw, spec["rand_exponents"])
+        # every value of the 33rd byte on every network: behind the exponent 1 or behind a random exponent (both on the thorough tier)
+        sweeps = (0, len(exps) - 1) if spec["tier"] != "quick" else (0,) if (ci + spec["seed"]) % 2 else (len(exps) - 1,)
+        for ei, e in enumerate(exps):
+            if spec["tier"] == "quick" and ei >= 6 and ei not in sweeps and (ei + ci + spec["seed"]) % 2:
+                continue
+            for payload in wif_payloads(pw, foreign, e, rng, sweep=ei in sweeps, brief=spec["tier"] == "quick" and ei >= 6 and ei not in sweeps):
+                text = RB.encode_check(payload)
+                count += 1
+                if ei in sweeps and spec["tier"] == "quick":
+                    entries = ("parse.wif", WIF_ENTRIES[1 + count % 3]) if count % 4 == 0 else WIF_ENTRIES[:1]
+                elif ei >= 6 and spec["tier"] == "quick":
+                    entries = ("parse.wif", WIF_ENTRIES[1 + count % 3])
+                else:
+                    entries = WIF_ENTRIES if len(payload) - len(pw) in (32, 33, 34) and count % 3 == 0 else WIF_ENTRIES[:3]
+                warm = None
+                if count % 4 == 0 and foreign:
+                    # the network the text belongs to when it carries a foreign prefix, else one of the foreign networks in turn
+                    warm = by_prefix[next((f for f in foreign if payload.startswith(f)), foreign[(count // 4) % len(foreign)])]
+                judge_wif_text(net, code, pw, text, rec, m, entries, shared=count % 2 == 0, payload=payload, warm=warm)
+                if not sampled and payload[-1:] == b"\x02":
+                    rec.sample({"op": "parse.wif", "net": code, "text": text, "payload": payload, "reference": "refused: 33-byte body not ending in 01"})
+                    sampled = True
+        # random bodies of length 30..36 behind the right prefix; well-formed texts with a damaged checksum
+        for _ in range(spec["rand_texts"]):
+            L = rng.choice([30, 31, 32, 32, 33, 33, 33, 34, 35, 36])
+            body = bytearray(rng.randrange(256) for _ in range(L))
+            if L >= 33 and rng.random() < 0.5:
+                body[32] = 1
+            if rng.random() < 0.3:
+                body[0] = 0
+            judge_wif_text(net, code, pw, RB.encode_check(pw + bytes(body)), rec, m, WIF_ENTRIES[:3], shared=rng.random() < 0.5, payload=pw + bytes(body))
+        for _ in range(max(2, spec["rand_texts"] // 8)):
+            good = RW.encode(pw, rng.randrange(1, N), rng.random() < 0.5)
+            pos = rng.randrange(len(good))
+            alphabet = "123456789ABCDEFGHJKLMNPQRSTUVWXYZabcdefghijkmnopqrstuvwxyz"
+            bad = good[:pos] + alphabet[(alphabet.index(good[pos]) + rng.randrange(1, 58)) % 58] + good[pos + 1:]
+            judge_wif_text(net, code, pw, bad, rec, m, WIF_ENTRIES[:3])
         rec.ev("networks_usable")
 
 
@@ -781,6 +1353,14 @@ def run_shard(spec, rec):
     elif kind == "sec":
         rec.require("Key.from_sec", "keys.public(sec)", "sec_to_public_pair", "sec_class:x_ge_p", "sec_class:prefix", "sec_class:ok")
         run_sec(spec, rec, m)
+    elif kind == "history":
+        rec.require("key.query_history", "derive:public_copy", "derived_query", "source_query", "side_step:ku_output", "derive:wif_text")
+        run_histories(spec, rec, m)
+    elif kind == "wif":
+        rec.require("parse.wif", "parse.private_key", "parse.secret", "parse", "wif_class:ok", "wif_class:marker", "wif_class:length",
+                    "wif_class:prefix", "wif_class:range", "wif_class:checksum", "wif_text_accepted", "wif_text_refused", "wif_text_object_reused",
+                    "wif_text_object_reused_across_networks")
+        run_wif(spec, rec, m)
     else:
         rec.require("sigencode_der", "sigdecode_der(strict)", "der_blob_rejected:trailing")
         run_der(spec, rec, m)
@@ -795,11 +1375,18 @@ def replay_case(case, rec):
     elif "blob" in case:
         net = m.nets[case["net"]]
         judge_sec(case["blob"], case["net"], net, rec, m)
+    elif "history" in case:
+        net = m.nets[case["net"]]
+        pf = net_prefixes(net, case["net"], rec)
+        if pf is not None:
+            h = case["history"]
+            run_history(net, case["net"], dict(h["src"]), [list(s_) for s_ in h["steps"]], rec, m, pf)
     elif "wif_text" in case:
         net = m.nets[case["net"]]
-        st, r = observe(net.parse.wif, case["wif_text"])
-        if st == "ok" and r is not None:
-            rec.violation("wif.parse_accepts_out_of_range_exponent", case, r, "None or exception")
+        raw = RB.decode_check(net.keys.private(1).wif())
+        entries = [case["entry"]] if case.get("entry") in WIF_ENTRIES else WIF_ENTRIES
+        judge_wif_text(net, case["net"], raw[:-33], str(case["wif_text"]), rec, m, entries, shared=bool(case.get("shared_text_object")),
+                       warm=case.get("first_given_to"))
     elif "pair" in case:
         net = m.nets[case["net"]]
         pr = tuple(None if v is None else int(v) for v in case["pair"])
